@@ -80,6 +80,44 @@ PLANS = {
                        "containing a string / dynamic array / optional at any depth; _make_signals raises iff the message exceeds 64 bits; the tiling "
                        "invariant excludes overlaps and signals beyond the message; by C10's gating contract nothing is written when generation fails",
     },
+    "C11": {
+        "targets": ["fcp.parser:_get_fcp", "fcp.parser:get_fcp_from_string"],
+        "native": "parse",
+        "trusted": [
+            "ASSUMED raise sets of lark 1.3.1: Lark.parse raises only UnexpectedCharacters/UnexpectedEOF and terminates; Transformer.transform "
+            "wraps every callback exception into VisitError",
+            "assumed no-raise contracts: FcpV2Transformer.__init__, Logger.add_source, Logger.log_lark, the filesystem proxy read of the root file",
+            "Logger.error (rendering, cited line exists) is NOT under contract; only the native replay exercises it",
+        ],
+        "explanation": "exceptional postconditions: on every path of _get_fcp the assumed lark exceptions are caught and turned into error "
+                       "values, the only exception that leaves is the attempt() of an Err, and the real @catch of get_fcp_from_string converts "
+                       "that; get_fcp_from_string has no raises clause, so any escaping exception is a failed obligation",
+    },
+    "C08": {
+        "targets": ["fcp.parser:FcpV2Transformer.composed_type", "fcp.specs.v2:FcpV2.get_struct", "fcp.specs.v2:FcpV2.get_enum",
+                    "fcp.specs.v2:FcpV2.get_type", "fcp.specs.v2:FcpV2.merge"],
+        "native": "parse",
+        "trusted": [
+            "ASSUMED: lark calls the callbacks bottom-up, children left to right, each once (so `collected so far` means `declared earlier in the text`)",
+            "the propagation of an Err through array/optional/struct_field/struct/start callbacks (results_in chaining) is not under contract",
+        ],
+        "explanation": "composed_type is proved to return Ok(StructType(n)) iff a struct named n is among the structs collected so far, else "
+                       "Ok(EnumType(n)) iff an enum is, else an Err whose first message contains n; the look-ups get_struct/get_enum/get_type are "
+                       "proved to return the first declaration of that name (structs before enums); merge is proved to append, so references "
+                       "resolved before an import still resolve after it",
+    },
+    "C20": {
+        "targets": ["fcp.specs.v2:FcpV2.merge", "fcp.specs.v2:FcpV2.get_struct", "fcp.specs.v2:FcpV2.get_enum",
+                    "fcp.parser:FcpV2Transformer.composed_type"],
+        "native": "parse",
+        "trusted": [
+            "mod_expr itself (path resolution, nested transformer, error naming) uses `with open` and lark objects and is NOT under contract; "
+            "only the native replay exercises it",
+        ],
+        "explanation": "merge(other) is proved to append other's structs, enums, impls, services and devices, in order, to the importing schema "
+                       "and to change nothing else: importing a module at the point of first need therefore yields the same five lists as "
+                       "declaring its contents at that point",
+    },
     "C10": {
         "targets": ["fcp.codegen:_handle_file", "fcp.codegen:_handle_print", "fcp.codegen:handle_result", "fcp.codegen:CodeGenerator.gen",
                     "fcp.codegen:GeneratorManager.generate"],
